@@ -73,10 +73,11 @@ Last(st) == st.hist[st.calls]
 AtMostMaxS(m, st) == st.calls <= Max0(m)
 \* as it is
 AtMostMaxPlusOneS(m, st) == st.calls <= Max0(m + 1)
-\* exactly one sleep of 3 s between two consecutive calls, none before the first or after the last
+\* exactly one sleep between two consecutive calls, none before the first or after the last (its length, 3 s, is a matter of L2)
 SleepBetweenS(m, st) ==
-    /\ st.slept = SLEEP * st.sleeps /\ st.sleeps <= st.calls /\ st.sleeps + 1 >= st.calls
+    /\ st.sleeps <= st.calls /\ st.sleeps + 1 >= st.calls
     /\ (st.res # "none" => st.sleeps = (IF st.calls = 0 THEN 0 ELSE st.calls - 1))
+SleepLengthS(m, st) == st.slept = SLEEP * st.sleeps
 \* True iff the last call succeeded, and nothing is called after a success
 TrueOnFirstSuccessS(m, st) ==
     /\ \A k \in 1..(st.calls - 1) : st.hist[k] # "ok"
@@ -85,9 +86,10 @@ TrueOnFirstSuccessS(m, st) ==
 WrongSchemeS(m, st) ==
     /\ \A k \in 1..(st.calls - 1) : Group(st.hist[k]) # "setup"
     /\ (st.res # "none" /\ st.calls > 0 /\ Group(Last(st)) = "setup" => st.res = SetupWhy(Last(st)))
-\* a retryable error is re-raised only when the attempts are used up, never swallowed into a return value
+\* the function gives up on a retryable error only when the attempts are used up, and then never with True
+\* (as it is the error is re-raised; L2 checks that)
 RetriesUsedUpS(m, st) ==
-    (st.res # "none" /\ st.calls > 0 /\ Group(Last(st)) = "retry") => st.res = "raise:" \o Last(st) /\ st.calls >= Max0(m)
+    (st.res # "none" /\ st.calls > 0 /\ Group(Last(st)) = "retry") => st.res \in {"raise:" \o Last(st), "False"} /\ st.calls >= Max0(m)
 \* anything else is raised unchanged at once
 FatalRaisedS(m, st) ==
     /\ \A k \in 1..(st.calls - 1) : Group(st.hist[k]) = "retry"
@@ -95,7 +97,7 @@ FatalRaisedS(m, st) ==
 
 AtMostMax == AtMostMaxS(max, s)
 AtMostMaxPlusOne == AtMostMaxPlusOneS(max, s)
-SleepBetween == SleepBetweenS(max, s)
+SleepBetween == SleepBetweenS(max, s) /\ SleepLengthS(max, s)
 TrueOnFirstSuccess == TrueOnFirstSuccessS(max, s)
 WrongScheme == WrongSchemeS(max, s)
 RetriesUsedUp == RetriesUsedUpS(max, s)
